@@ -264,9 +264,8 @@ def via_config(cls, cfg, x, NFFT, sampling, scale_by_freq, route):
             str(p)                                   # (a summary that swallows the failure must not mark the estimate as computed either)
         except Exception:
             pass
-        setattr(p, attr, v0)
-        p()                                          # (an untracked attribute: applied by an explicit computation)
-        return p
+        setattr(p, attr, v0)                         # (no explicit computation here: the failed one left the estimate pending, so the next
+        return p                                     #  read must compute it with the repaired setting - that is the point of this route)
     kind, key = route.split(':')
     attr = CFG_ATTRS[cls][key]
     alt = dict(cfg); alt[key] = _alt_value(key, cfg[key])
